@@ -95,6 +95,9 @@ def generate(seed: int, tier: str = "quick") -> dict:
         twins.append({"k": kb, "j": j, "kind": kind, "seed": rf.randint(0, 2**31), "mid_bin": j != j0})
         sc["faults"].append({"kind": "future_divergence:" + kind, "bar": kb})
     sc["twins"] = twins
+    if R.sub(seed, "loader").random() < 0.2:
+        sc.setdefault("opts", {})["loader_twin"] = True  # the twin data sets also go through the real CSV loader
+        sc["faults"].append({"kind": "data_read_from_minute_files"})
     return sc
 
 
@@ -279,6 +282,76 @@ def _prefix(events, k):
     return out
 
 
+CSV_COLUMNS = ("netAmount0", "netAmount1", "closeTick", "openTick", "lowestTick", "highestTick", "inAmount0", "inAmount1", "currentLiquidity")
+
+
+def load_through_files(world, mw):
+    """The market's raw minute rows written as demeter-fetch day files (a minute without a swap has no row) into a private
+    directory and read back through the REAL loader (load_uni_v3_data: read_csv, reindex to whole days, fillna, statistic
+    columns), with the loader's feather cache pointed at a private empty directory."""
+    import os
+    import shutil
+    import tempfile
+
+    import demeter.data.data_cache as DC
+    from demeter import TokenInfo
+    from demeter.uniswap import UniV3Pool
+    from demeter.uniswap.helper import load_uni_v3_data
+
+    start, n = pd.Timestamp(world["start"]), int(world["n"])
+    tok = {k: TokenInfo(k, int(v)) for k, v in world["tokens"].items()}
+    pool = UniV3Pool(tok[mw["token0"]], tok[mw["token1"]], mw["fee"], tok[mw["quote"]])
+    root = tempfile.mkdtemp(prefix="dsim-loader-")
+    saved = (DC.CACHE_PATH, DC.CACHE_CONFIG_PATH)
+    try:
+        DC.CACHE_PATH = os.path.join(root, "cache")
+        DC.CACHE_CONFIG_PATH = os.path.join(DC.CACHE_PATH, "config.pkl")
+        days = {}
+        for i in range(n):
+            if mw["closeTick"][i] is None:
+                continue
+            ts = start + pd.Timedelta(minutes=i)
+            row = [str(ts)]
+            for c in CSV_COLUMNS:
+                v = mw.get(c)
+                if c.endswith("Tick"):
+                    row.append(repr(float(mw["closeTick"][i] if v is None else v[i])))
+                else:
+                    row.append("0" if v is None else str(v[i]))
+            days.setdefault(ts.date(), []).append(",".join(row))
+        d0, d1 = start.date(), (start + pd.Timedelta(minutes=n - 1)).date()
+        d = d0
+        while d <= d1:
+            with open(os.path.join(root, f"ethereum-0xdsim-{d.strftime('%Y-%m-%d')}.minute.csv"), "w") as f:
+                f.write("timestamp," + ",".join(CSV_COLUMNS) + "\n" + "\n".join(days.get(d, [])) + ("\n" if days.get(d) else ""))
+            d += pd.Timedelta(days=1).to_pytimedelta()
+        return load_uni_v3_data(pool, "ethereum", "0xdsim", d0, d1, data_path=root)
+    finally:
+        DC.CACHE_PATH, DC.CACHE_CONFIG_PATH = saved
+        shutil.rmtree(root, ignore_errors=True)
+
+
+def loader_twin_check(res, base, tw, sc2):
+    """Two sets of minute FILES that agree before the divergence minute, read by the real loader: the frames (whose rows are
+    what the snapshots of those bars hand to the strategy) must agree on every row before that minute."""
+    t_div = pd.Timestamp(base["world"]["start"]) + pd.Timedelta(minutes=int(tw["j"]))
+    twin_markets = {m["name"]: m for m in sc2["world"]["markets"]}
+    for mw in base["world"]["markets"]:
+        if mw["kind"] != "uni" or mw["name"] not in twin_markets:
+            continue
+        fa = load_through_files(base["world"], {k: v for k, v in mw.items() if k != "pre"})
+        fb = load_through_files(sc2["world"], {k: v for k, v in twin_markets[mw["name"]].items() if k != "pre"})
+        pa, pb = fa[fa.index < t_div], fb[fb.index < t_div]
+        res.count("probe:loader_twin_frames_compared")
+        if frame_hash(pa) != frame_hash(pb):
+            bad = None
+            if list(pa.columns) == list(pb.columns) and len(pa) == len(pb):
+                ca, cb = canon(pa)["__frame__"][1], canon(pb)["__frame__"][1]
+                bad = next((ra[0] for ra, rb in zip(ca, cb) if ra != rb), None)
+            res.violate("c02.lookahead", f"loader:{mw['name']}:rows_before_divergence:" + tw["kind"], j=tw["j"], first_row=bad,
+                        columns_a=[str(c) for c in pa.columns], columns_b=[str(c) for c in pb.columns])
+
+
 def execute(scenario):
     if scenario.get("donor"):
         DN.prepare(scenario["donor"])
@@ -307,6 +380,8 @@ def execute(scenario):
         sc2 = make_twin(base, tw)
         if sc2 is None:
             continue
+        if scenario.get("opts", {}).get("loader_twin") and not scenario.get("donor"):
+            loader_twin_check(res, base, tw, sc2)
         s3 = Sim(sc2, SnapshotLogger())
         if _dtypes(s3.fed) != _dtypes(s1.fed):
             # the two files do not "agree on bars 0..k" as frames: pandas inferred another dtype for some column from
